@@ -37,6 +37,7 @@ const preludeCore = `
 (declare-fun str_of_runes ((Array Int Int) Int Int) Str)
 (declare-fun str_of_rune (Int) Str)
 (declare-fun str_of_byte (Int) Str)
+(declare-fun bytes_str ((Array Int Int) Int Int) Str)
 (declare-fun utf8_rune (Str Int) Int)
 (declare-fun utf8_width (Str Int) Int)
 (declare-fun f2i_oor (Real Int) Int)
@@ -65,6 +66,8 @@ var strAxioms = []struct{ trigger, text string }{
 	{"str_lt", `(assert (forall ((a Str) (b Str) (c Str)) (! (=> (and (str_lt a b) (str_lt b c)) (str_lt a c)) :pattern ((str_lt a b) (str_lt b c)))))`},
 	{"str_of_rune", `(assert (forall ((r Int)) (! (and (>= (slen (str_of_rune r)) 1) (<= (slen (str_of_rune r)) 4) (=> (and (<= 0 r) (< r 128)) (and (= (slen (str_of_rune r)) 1) (= (sat (str_of_rune r) 0) r)))) :pattern ((str_of_rune r)))))`},
 	{"str_of_byte", `(assert (forall ((r Int)) (! (and (= (slen (str_of_byte r)) 1) (=> (and (<= 0 r) (<= r 255)) (= (sat (str_of_byte r) 0) r))) :pattern ((str_of_byte r)))))`},
+	{"bytes_str", `(assert (forall ((a (Array Int Int)) (o Int) (n Int)) (! (=> (>= n 0) (= (slen (bytes_str a o n)) n)) :pattern ((bytes_str a o n)))))`},
+	{"bytes_str", `(assert (forall ((a (Array Int Int)) (o Int) (n Int) (i Int)) (! (=> (and (<= 0 i) (< i n) (<= 0 (select a (+ o i))) (<= (select a (+ o i)) 255)) (= (sat (bytes_str a o n) i) (select a (+ o i)))) :pattern ((sat (bytes_str a o n) i)))))`},
 	{"rune_count", `(assert (forall ((s Str)) (! (and (<= 0 (rune_count s)) (<= (rune_count s) (slen s))) :pattern ((rune_count s)))))`},
 }
 
@@ -280,7 +283,7 @@ func (e *Engine) vcText(vc *VC, withModel bool, relaxed bool) string {
 	sb.WriteString("(set-option :produce-models true)\n(set-logic ALL)\n")
 	sb.WriteString(preludeCore)
 	for i, f := range forms {
-		if include[i] && !(relaxed && f.quant && f.declare == "") {
+		if include[i] && !(relaxed && f.quant && f.declare == "") && f.text != e.lemmaSelf[vc.Owner] {
 			sb.WriteString(f.text + "\n")
 		}
 	}
@@ -392,88 +395,88 @@ func (e *Engine) discharge(outDir string, timeoutMs int, allSolvers bool, worker
 }
 
 func (e *Engine) solveOne(vc *VC, file string, solvers []SolverCfg, timeoutMs int, all bool) {
-	ctx := context.Background()
-	// stage 1: z3-new alone (fast path)
-	r, out, ms := runSolver(ctx, solvers[0], file, timeoutMs)
-	vc.Ms += ms
-	if r == "sat" && all && strings.Contains(vc.Goal, "false") && vc.Goal == "false" {
-		vc.Result, vc.Solver, vc.Output, vc.Model = r, solvers[0].Name, out, out
-		return
+	// z3-new and cvc5 race; the first definite answer wins (unless all: then every solver is
+	// heard and disagreement is reported). z3 4.8.12 is consulted only for a model afterwards.
+	type ans struct {
+		name, r, out string
+		ms           int64
 	}
-	if (r == "unsat" || r == "sat") && !all {
-		vc.Result, vc.Solver, vc.Output = r, solvers[0].Name, out
-		if r == "sat" {
-			vc.Model = out
-		}
-		return
-	}
-	results := map[string]string{solvers[0].Name: r}
-	outs := map[string]string{solvers[0].Name: out}
-	// stage 2: the others in parallel
-	var wg sync.WaitGroup
-	var mu sync.Mutex
-	for _, s := range solvers[1:] {
-		wg.Add(1)
+	ctx, cancel := context.WithCancel(context.Background())
+	defer cancel()
+	racers := solvers[:2]
+	ch := make(chan ans, len(racers))
+	for _, s := range racers {
 		go func(s SolverCfg) {
-			defer wg.Done()
 			r, out, ms := runSolver(ctx, s, file, timeoutMs)
-			mu.Lock()
-			results[s.Name], outs[s.Name] = r, out
-			vc.Ms += ms
-			mu.Unlock()
+			ch <- ans{s.Name, r, out, ms}
 		}(s)
 	}
-	wg.Wait()
+	results := map[string]string{}
+	outs := map[string]string{}
 	var unsatBy, satBy string
-	for _, s := range solvers {
-		switch results[s.Name] {
-		case "unsat":
-			if s.Name == "z3" {
-				// z3 4.8.12 answered unsat on a satisfiable query (define-fun parameter capture);
-				// its unsat never counts (neither for obligations nor for vacuity canaries); only its sat answers (models, validated by replay) are used.
-				results[s.Name] = "unsat(untrusted)"
-				continue
-			}
-			if unsatBy == "" {
-				unsatBy = s.Name
-			}
-		case "sat":
-			if satBy == "" {
-				satBy = s.Name
-			}
+	for range racers {
+		a := <-ch
+		results[a.name], outs[a.name] = a.r, a.out
+		vc.Ms += a.ms
+		if a.r == "unsat" && unsatBy == "" {
+			unsatBy = a.name
+		}
+		if a.r == "sat" && satBy == "" {
+			satBy = a.name
+		}
+		if !all && (a.r == "unsat" || a.r == "sat") {
+			cancel()
+			break
 		}
 	}
 	switch {
 	case unsatBy != "" && satBy != "":
 		vc.Result, vc.Solver = "disagree", unsatBy+"/"+satBy
 		vc.Output = outs[satBy]
+		return
 	case unsatBy != "":
 		vc.Result, vc.Solver, vc.Output = "unsat", unsatBy, outs[unsatBy]
+		return
 	case satBy != "":
 		vc.Result, vc.Solver, vc.Output, vc.Model = "sat", satBy, outs[satBy], outs[satBy]
-	default:
-		vc.Result = "unknown"
-		var parts []string
-		for _, s := range solvers {
-			parts = append(parts, s.Name+"="+results[s.Name])
+		return
+	}
+	// nobody decided: z3 4.8.12 may still find a model (its unsat is never trusted)
+	if vc.Goal != "false" {
+		r, out, ms := runSolver(context.Background(), solvers[2], file, timeoutMs/2)
+		vc.Ms += ms
+		results[solvers[2].Name] = r
+		if r == "unsat" {
+			results[solvers[2].Name] = "unsat(untrusted)"
 		}
-		vc.Solver = strings.Join(parts, ",")
-		vc.Output = outs[solvers[0].Name]
-		// candidate counterexample from the quantifier-free relaxation (validated only by replay)
-		if strings.Contains(vc.Goal, "(forall ") || vc.Goal == "false" {
+		if r == "sat" {
+			vc.Result, vc.Solver, vc.Output, vc.Model = "sat", solvers[2].Name, out, out
 			return
 		}
-		rf := strings.TrimSuffix(file, ".smt2") + ".relaxed.smt2"
-		os.WriteFile(rf, []byte(e.vcText(vc, true, true)), 0o644)
-		for _, s := range solvers[:2] {
-			r, out, ms := runSolver(ctx, s, rf, timeoutMs)
-			vc.Ms += ms
-			if r == "sat" {
-				vc.Model = out
-				vc.Candidate = true
-				vc.Output += "\n; candidate model from quantifier-free relaxation (" + s.Name + "):\n" + out
-				break
-			}
+	}
+	vc.Result = "unknown"
+	var parts []string
+	for _, s := range solvers {
+		if results[s.Name] != "" {
+			parts = append(parts, s.Name+"="+results[s.Name])
+		}
+	}
+	vc.Solver = strings.Join(parts, ",")
+	vc.Output = outs[solvers[0].Name]
+	// candidate counterexample from the quantifier-free relaxation (validated only by replay)
+	if strings.Contains(vc.Goal, "(forall ") || vc.Goal == "false" {
+		return
+	}
+	rf := strings.TrimSuffix(file, ".smt2") + ".relaxed.smt2"
+	os.WriteFile(rf, []byte(e.vcText(vc, true, true)), 0o644)
+	for _, s := range solvers[:2] {
+		r, out, ms := runSolver(context.Background(), s, rf, timeoutMs)
+		vc.Ms += ms
+		if r == "sat" {
+			vc.Model = out
+			vc.Candidate = true
+			vc.Output += "\n; candidate model from quantifier-free relaxation (" + s.Name + "):\n" + out
+			break
 		}
 	}
 }
